@@ -114,9 +114,14 @@ checkreply(const char *status, const char **pre, const int mask)
 			/* Put the newline into linein to avoid a second write just for that.
 			 * Since linein is always 0-terminated there is enough space to hold
 			 * that character, and the contents of linein are overwritten by the
-			 * following call to netget() anyway. */
-			linein.s[linein.len] = '\n';
-			write_status_raw(linein.s, linein.len + 1);
+			 * following call to netget() anyway.
+			 * Use strlen() instead of linein.len as write_status() does for the
+			 * last line: a NUL byte sent by the server must not end up in the
+			 * status stream, where it would terminate the report. */
+			const size_t l = strlen(linein.s);
+
+			linein.s[l] = '\n';
+			write_status_raw(linein.s, l + 1);
 		}
 		/* ignore the SMTP code sent here, if it's different from the one before the server is broken */
 		(void) netget(1);
